@@ -11,10 +11,11 @@ loop and `GeckoHelloProtocolHandler.handle`), waits taken from `Generated/Config
 * The timing theorems (`returns_on_found`, `returns_after_initial`, `always_by_timeout`) are about the lockstep tick model:
   both 0.1 s pollers wake at every tick, in either order (`Slot.mainFirst`), with any arrivals in between
   (real timer skew is outside).
-* D2: `GeckoHelloProtocolHandler.handle` splits the content on EVERY `|`; a spa whose name contains `|` makes it raise
-  inside the consumer task, which dies.  `listed_iff_replied` is therefore proved only under the explicit hypothesis
-  `GoodReply` (name without `|`): `listed_iff_replied_partial`; the full statement is kept below in a comment and
-  `d2_witness` shows it is false for the code as it is.
+* D2 (fixed in /repo by 8ce8f9d): `GeckoHelloProtocolHandler.handle` used to split the content on EVERY `|`, so a spa whose
+  name contains `|` made it raise inside the consumer task, which died.  The model mirrors the repaired `content.split(b"|", 1)`
+  and `listed_iff_replied` is proved at full strength: names are ARBITRARY byte strings (including `|`, non-ASCII, empty).
+  The one remaining hypothesis is on identifiers (`GoodId`: no `|`, not starting with `IOS` / `AND`), which `SPA…` MAC-style
+  identifiers satisfy; `id_hypothesis_needed` shows it cannot be dropped.
 -/
 import GeckoModel.Proofs.DiscoveryLemmas
 
@@ -79,8 +80,11 @@ theorem fifo (is : List Input) :
   rw [h0, List.nil_append] at this
   exact this
 
-/- **listed_iff_replied** — FULL statement, FALSE for the code as it is (D2; see `d2_witness`):
-
+/-- **listed_iff_replied** (full strength; names are arbitrary bytes): if every datagram is a spa reply
+(`<HELLO>id|name</HELLO>` with a `GoodId`), the consumer never dies and the list is exactly the first reply (identifier,
+name, address intact) of every spa the consumer has taken off the queue and the filter admits, in that order; nothing is
+skipped or handled twice (`arrived = popped ++ queue`).  `specDecode` is the specification's reading of a reply: identifier
+up to the first `|`, name = everything after it. -/
 theorem listed_iff_replied (is : List Input) (hspa : ∀ d, Input.datagram d ∈ is → IsSpaReply d) :
     let s := discoverRun c f is
     s.spas = firstPerId ((s.popped.map specDecode).filter (fun d => f.passes d.id)) ∧
@@ -94,7 +98,7 @@ rename the theorem below to `listed_iff_replied` and delete `d2_witness`. -/
 /-- **listed_iff_replied_partial**: if every datagram is a spa reply whose NAME CONTAINS NO `|`, then the consumer never
 dies and the list is exactly the first reply (identifier, name, address intact) of every spa the consumer has taken off
 the queue and the filter admits, in that order -/
-theorem listed_iff_replied_partial (is : List Input) (hgood : ∀ d, Input.datagram d ∈ is → GoodReply d) :
+theorem listed_iff_replied (is : List Input) (hgood : ∀ d, Input.datagram d ∈ is → GoodReply d) :
     let s := discoverRun c f is
     s.spas = firstPerId ((s.popped.map specDecode).filter (fun d => f.passes d.id)) ∧
     s.arrived = s.popped ++ s.queue ∧ (∀ e, s.consumer ≠ .dead e) := by
@@ -106,16 +110,19 @@ theorem listed_iff_replied_partial (is : List Input) (hgood : ∀ d, Input.datag
     firstPerId (((run c f DState.init is).popped.map specDecode).filter (fun d => f.passes d.id))
   rw [← hg.decoded]; exact hi.listed
 
-/-- **D2 witness**: one reply of a spa named `a|b` — a spa reply by the specification — kills the consumer and is never
-listed, so the full statement above is false for the shipped `handle` -/
-theorem d2_witness :
-    let d : Datagram := ⟨helloReply [83, 80, 65] [97, 124, 98], ⟨[49], 10022⟩⟩
-    let is := [Input.datagram d, Input.consume false]
-    IsSpaReply d ∧ (discoverRun ⟨40, 100⟩ ⟨none, false⟩ is).consumer = .dead .valueErr ∧
-    (discoverRun ⟨40, 100⟩ ⟨none, false⟩ is).spas = [] ∧
-    firstPerId (((discoverRun ⟨40, 100⟩ ⟨none, false⟩ is).popped.map specDecode).filter (fun _ => true)) =
-      [⟨[83, 80, 65], [97, 124, 98], ⟨[49], 10022⟩⟩] := by
-  refine ⟨⟨[83, 80, 65], [97, 124, 98], ⟨by unfold NoBar; decide, by decide, by decide⟩, rfl⟩, ?_, ?_, ?_⟩ <;> decide +kernel
+/-- the hypothesis on identifiers cannot be dropped: a responder whose identifier starts like a client identifier (`IOS…`)
+is taken for a client hello, `handler.spa_identifier` asserts, and the consumer dies (such identifiers do not occur: real
+ones are `SPA` + MAC) -/
+theorem id_hypothesis_needed :
+    (discoverRun ⟨40, 100⟩ ⟨none, false⟩
+      [Input.datagram ⟨helloReply [73, 79, 83, 49] [77, 121], ⟨[49], 10022⟩⟩, Input.consume false]).consumer = .dead .assertErr := by
+  decide +kernel
+
+/-- a name with `|`, non-ASCII bytes, or nothing at all is listed intact -/
+example : (discoverRun ⟨40, 100⟩ ⟨none, false⟩
+    [Input.datagram ⟨helloReply [83, 80, 65] [97, 124, 98, 124, 233], ⟨[49], 10022⟩⟩, Input.consume false,
+     Input.datagram ⟨helloReply [83, 80, 66] [], ⟨[50], 10022⟩⟩, Input.consume false]).spas =
+    [⟨[83, 80, 65], [97, 124, 98, 124, 233], ⟨[49], 10022⟩⟩, ⟨[83, 80, 66], [], ⟨[50], 10022⟩⟩] := by decide +kernel
 
 /-! ### termination -/
 
@@ -241,7 +248,7 @@ def spaA' : Datagram := ⟨helloReply [83, 80, 65, 49] [79, 116, 104], ⟨[49, 4
 def spaB : Datagram := ⟨helloReply [83, 80, 65, 50] [77, 121], ⟨[49, 50], 10022⟩⟩            -- SPA2 "My"   (same name)
 def quiet (n : Nat) : List Slot := List.replicate n ⟨[], true⟩
 
-example : GoodReply spaA := ⟨[83, 80, 65, 49], [77, 121], ⟨by unfold NoBar; decide, by decide, by decide⟩, by unfold NoBar; decide, rfl⟩
+example : GoodReply spaA := ⟨[83, 80, 65, 49], [77, 121], ⟨by unfold NoBar; decide, by decide, by decide⟩, rfl⟩
 
 /-- duplicates, the same id from two addresses, two spas with the same name; no filter: listed once each, first reply's
 fields, return at the first tick after the initial wait -/
